@@ -144,6 +144,86 @@ func (w *World) initFrom(appState []byte, height int64) (*Node, string) {
 	return n, p
 }
 
+// importKeepingGenesisTime: `und export` copies genesis_time from the node's old genesis file and
+// CometBFT stamps the first block of a chain with genesis_time. Unless the operator edits the
+// document, the first block of the chain restarted from an export is therefore *earlier* than
+// everything its state remembers (raise times of pending orders, last releases of streams). That
+// block must not do what the exporting chain would not do: reject orders whose time limit has not
+// passed, or make a later claim pay a period that was already settled before the export.
+func (w *World) importKeepingGenesisTime(raw []byte, height int64) {
+	w.Probe("c15.import-keeping-genesis-time")
+	gt := time.Unix(GenesisTS, 0).UTC()
+	n := &Node{Idx: 102, Cfg: DefaultRefCfg(), DB: dbm.NewMemDB(), AppOpts: appOptsOf(&w.T.Knobs)}
+	n.Open()
+	req := abci.RequestInitChain{Time: gt, ChainId: ChainID, ConsensusParams: InitChainReq(nil).ConsensusParams, Validators: []abci.ValidatorUpdate{}, AppStateBytes: raw, InitialHeight: height}
+	if p, _ := safely(func() { n.App.InitChain(req) }); p != "" {
+		return // judged by the import at the current time
+	}
+	hdr := MakeHeader(height, gt, nil)
+	if p, _ := safely(func() { n.App.BeginBlock(abci.RequestBeginBlock{Header: hdr, LastCommitInfo: LastCommit()}) }); p != "" {
+		w.Violate("C15", "C15/imported-chain-halts/first-block-at-genesis-time", "the first block (stamped with the unchanged genesis_time) after import at %d panics: %s", w.Ref.Height, trunc(p, 300))
+		return
+	}
+	ctx := n.App.BaseApp.NewContext(false, hdr)
+	// (a) pending orders: rejected only for a reason the statement knows
+	e := w.M.Ent
+	for _, id := range sortedU64(e.Orders) {
+		o := e.Orders[id]
+		if o.Status != 1 {
+			continue
+		}
+		po, found := n.App.EnterpriseKeeper.GetPurchaseOrder(ctx, id)
+		if !found || po.Status != enttypes.StatusRejected {
+			continue
+		}
+		acc, rej := 0, 0
+		for _, d := range o.Decisions {
+			if d.Decision == 2 {
+				acc++
+			} else if d.Decision == 3 {
+				rej++
+			}
+		}
+		expired := uint64(GenesisTS) >= o.RaiseTime && uint64(GenesisTS)-o.RaiseTime >= e.Limit
+		if rej > len(e.Signers)-int(e.MinAccepts) || (expired && uint64(acc) < e.MinAccepts) {
+			continue
+		}
+		w.Violate("C15", "C15/imported-chain-rejects-pending-order/first-block-at-genesis-time", "order %d (raised at %d, limit %d s, %d accepts, %d rejects of %d signers, min %d) is raised on the exporting chain; the chain started from the export rejects it in its first block, stamped with the unchanged genesis_time %d", id, o.RaiseTime, e.Limit, acc, rej, len(e.Signers), e.MinAccepts, GenesisTS)
+		break
+	}
+	// (b) streams: a claim delivered in that first block must not change what later claims pay
+	router := n.App.MsgServiceRouter()
+	later := w.Now.Add(time.Hour)
+	sm := w.M.Str
+	for _, k := range sm.keys() {
+		st := sm.Streams[k]
+		if st.Remaining.Sign() <= 0 {
+			continue
+		}
+		ra, err1 := sdk.AccAddressFromBech32(st.Receiver)
+		sa, err2 := sdk.AccAddressFromBech32(st.Sender)
+		if err1 != nil || err2 != nil {
+			continue
+		}
+		claim := &streamtypes.MsgClaimStream{Sender: st.Sender, Receiver: st.Receiver}
+		run := func(c sdk.Context) {
+			safely(func() { router.Handler(claim)(c.WithEventManager(sdk.NewEventManager()), claim) })
+		}
+		c1, _ := ctx.CacheContext()
+		run(c1.WithBlockTime(gt))
+		run(c1.WithBlockTime(later))
+		c2, _ := ctx.CacheContext()
+		run(c2.WithBlockTime(later))
+		s1, _ := n.App.StreamKeeper.GetStream(c1, ra, sa)
+		s2, _ := n.App.StreamKeeper.GetStream(c2, ra, sa)
+		w.Probe("c15.claim-in-first-block-at-genesis-time")
+		if !s1.Deposit.IsEqual(s2.Deposit) {
+			w.Violate("C15", "C15/same-tx-different-effect/claim-after-first-block-at-genesis-time", "stream %s->%s: a claim at %s leaves %s when the receiver also claimed in the chain's first block (stamped with the unchanged genesis_time), %s otherwise", st.Sender, st.Receiver, later.Format(time.RFC3339), s1.Deposit, s2.Deposit)
+			break
+		}
+	}
+}
+
 // takeFork exports the reference node and builds the imported nodes. Only armed for C15.
 func (w *World) takeFork() {
 	if w.armedC08 {
@@ -192,6 +272,7 @@ func (w *World) takeFork() {
 		return
 	}
 	w.Fork = &Fork{B: b, AtHeight: a.Height}
+	w.importKeepingGenesisTime(raw, expA.height)
 	bctx := b.App.BaseApp.NewContext(false, MakeHeader(expA.height, w.Now, nil))
 	actx := w.CCtx()
 	// (3) observable equality of the four modules
